@@ -76,6 +76,19 @@ Theorem C12_schedule_is_model_run : forall b k sched i hist s,
 Proof. exact run_apps_is_run_from. Qed.
 Print Assumptions C12_schedule_is_model_run.
 
+(* ANY history of ANY operations (puts, deletes, multipart, copies, versioning changes, other keys in between): every
+   acknowledged append with write offset o ran in a state in which the key's current size was exactly o *)
+Theorem C12_every_ack_at_its_offset_any_history : forall ops i hist s n b k c o e z,
+  nth_error ops n = Some (OApp b k c (Some o)) ->
+  nth_error (run_results i hist s ops) n = Some (RAppend e z) ->
+  exists sn, nth_error (pre_states i hist s ops) n = Some sn /\ o = cur_size sn b k.
+Proof. exact ack_at_offset_any_history. Qed.
+Print Assumptions C12_every_ack_at_its_offset_any_history.
+Theorem C12_results_are_model_results : forall ops i hist s,
+  snd (run_from i hist s ops) = rev hist ++ run_results i hist s ops.
+Proof. exact run_results_is_run_from. Qed.
+Print Assumptions C12_results_are_model_results.
+
 (* ---- non-vacuity ---- *)
 Example C12_ex_inv_init : CInv init.
 Proof. split; [split; intros ? []|split; [constructor|intros ? []]]. Qed.
